@@ -99,6 +99,7 @@ def run(ctx):
           itab, btab, stab, info = excelgen.experiment(rng, base, n_beads=int(rng.integers(0, 3)) if cid[1] % 2 else 1,
                                                      force_float_first=('D' if cid[1] % 4 == 0 else True) if cid[1] % 2 == 0 else False,   # single / double precision
                                                      permute_columns=0.9 if cid[1] % 2 else 0.2,   # cell files laid out unlike the beads file
+                                                     big_first=cid[1] % 8 == 6,                    # a cell file of 70 001 events
                                                      units_pool=(['Channel', 'Channel', 'RFI', 'a.u.', 'MEF', 'au'] if cid[1] % 4 == 3      # raw-channel cells before converted ones
                                                                  else excelgen.UNITS))
         if cid[1] % 4 == 3 and len(stab) >= 1:
